@@ -28,7 +28,7 @@ LEVEL_TEXT = (
     "needed, so 61-state codon and 20-state protein models are covered at full size. Sampled over problems; every "
     "internal node is tried as the new root for each reversible problem."
 )
-LEVEL_NOTE = "trusted: the harness's own tree surgery (nested lists); tolerance rtol 1e-9 (1e-8 for >16 states)"
+LEVEL_NOTE = "trusted: the harness's own tree surgery (nested lists); tolerance rtol 1e-9 (1e-6 for >16 states)"
 TECHNIQUE = "runtime monitoring: relational (metamorphic) monitor over pairs of real executions"
 ASSUMPTIONS = [
     "branch lengths >= 0.01 so no transition probability is at rounding level (see C02 G-guard)",
@@ -254,7 +254,7 @@ def relate_library_tree_ops(res, rng, model):
         res.witness(exc_mechanism("C11/library-tree/base-evaluation", e), tree=nw, replay_case=rc)
         return
     nstates = {"nuc": 4, "protein": 20, "codon": 61, "dinuc": 16}[M.kind_of(model)]
-    rtol = 1e-9 if nstates <= 16 else 1e-8
+    rtol = 1e-9 if nstates <= 16 else 1e-6  # 61-state P matrices from the eigen path are good to ~1e-9 absolute; short branches make columns depend on entries ~1e-5
     names = M.tips(prob["tree"])
     internal = [e["name"] for e in M.edges(prob["tree"]) if e["children"]]
     all_positive = all(e["length"] > 0 for e in M.edges(prob["tree"]))
@@ -332,7 +332,7 @@ def relate(res, prob, rng, only=None):
     kind = M.kind_of(model)
     ml = {"nuc": 1, "protein": 1, "codon": 3, "dinuc": 2}[kind]
     nstates = {"nuc": 4, "protein": 20, "codon": 61, "dinuc": 16}[kind]
-    rtol = 1e-9 if nstates <= 16 else 1e-8
+    rtol = 1e-9 if nstates <= 16 else 1e-6  # 61-state P matrices from the eigen path are good to ~1e-9 absolute; short branches make columns depend on entries ~1e-5
     seed = rng.randrange(2**32)
     rng = random.Random(seed)
     try:
